@@ -14,23 +14,28 @@ def _alarm(signum, frame):
 
 
 def run_cases(fn, per_case_s=5):
-    """Read a JSON list of cases from stdin, apply fn to each under a per-case alarm and write the JSON
-    list of results.  A case that does not finish within per_case_s seconds yields ["hang"]."""
+    """Read a JSON list of cases from stdin, apply fn to each under a per-case limit and write the JSON
+    list of results.  A case that does not finish yields ["hang"].  The limit is per_case_s seconds of this
+    process's CPU time (a busy machine must not turn a slow case into a "hang"), backed by a wall-clock alarm
+    of 20 x per_case_s (at least 120 s) for a call that blocks without using the processor."""
     warnings.simplefilter("ignore")
     cases = json.load(sys.stdin)
     signal.signal(signal.SIGALRM, _alarm)
+    signal.signal(signal.SIGPROF, _alarm)
     out = []
     hangs = 0
     for c in cases:
         if hangs >= 3:                 # enough evidence; do not spend minutes on the rest
             out.append(["skipped"])
             continue
-        signal.alarm(per_case_s)
+        signal.setitimer(signal.ITIMER_PROF, per_case_s)
+        signal.alarm(max(120, 20 * int(per_case_s)))
         try:
             out.append(fn(c))
         except Hang:
             hangs += 1
             out.append(["hang"])
         finally:
+            signal.setitimer(signal.ITIMER_PROF, 0)
             signal.alarm(0)
     json.dump(out, sys.stdout)
